@@ -17,7 +17,7 @@ from props import c05 as L
 ID = 'C06'
 MODULE = 'PyTough.Props.C06'
 TARGETS = ['PyTough.Props.C06', 'drv_c05']
-THEOREMS = []
+THEOREMS = ['Props.C06.' + t for t in ['scan_reads_selected_lines', 'history_table_eq_cells', 'reversed_key_negated']]
 LEVEL_TEXT = ''
 LEVEL_NOTE = ''
 TECHNIQUE = L.TECHNIQUE
@@ -199,6 +199,9 @@ def job_c06(job, progress):
     fulltimes = [float(x) for x in lst.fulltimes]
     alltimes = [float(x) for x in lst.times]
     res['tables'] = sorted(tables)
+    res['fulltimes'] = [L.bits(x) for x in fulltimes]
+    res['alltimes'] = [L.bits(x) for x in alltimes]
+    res['path'] = str(path)
     if job.get('selections') is not None:
         sels = job['selections']
     else:
@@ -220,6 +223,7 @@ def job_c06(job, progress):
         try:
             out = lst.history(arg, short=short)
         except Exception as e:
+            res['calls'].append(dict(call, out='exc:' + type(e).__name__))
             viol('history-raises:%s:%s' % (family, type(e).__name__), 'history(%r, short=%r) raises %s: %s' % (arg, short, type(e).__name__, str(e)[:100]), **call)
             try:
                 lst.close()
@@ -228,6 +232,15 @@ def job_c06(job, progress):
             lst = L.open_listing(path)
             continue
         after = L.dump_view(lst)
+        try:
+            if out is None:
+                rec = None
+            else:
+                oo = [out] if len(items) == 1 else list(out)
+                rec = [[[L.bits(x) for x in o[0]], [L.bits(x) for x in o[1]]] for o in oo]
+        except Exception:
+            rec = 'unreadable'
+        res['calls'].append(dict(call, out=rec))
         d = L.views_equal(before, after)
         if d:
             viol('history-changes-view:%s' % family, 'after history(%r) the reader shows something else than before: %s' % (arg, d), **call)
@@ -309,6 +322,128 @@ def collect(res, results, jobs):
             res.sample(s)
 
 
+def enc_item(it):
+    spec, key, col = it
+    hx = lambda t: L.hexs(t) if t else '-'
+    if isinstance(key, int):
+        k = 'i:%d' % key
+    elif isinstance(key, (list, tuple)):
+        k = 'n:' + ';'.join(hx(x) for x in key)
+    else:
+        k = 'n:' + hx(key)
+    return '%s/%s/%s' % (hx(spec), k, hx(col))
+
+
+def parse_hist(line):
+    """driver reply -> None | 'exc:Class' | [(uses_full_times, [bits of values])]"""
+    w = line.split(' ')
+    if w[0] == 'exc':
+        return 'exc:' + w[1]
+    if w[0] != 'ok':
+        raise RuntimeError('driver hist: %s' % line[:200])
+    if w[1] == 'none':
+        return None
+    n = int(w[1])
+    k = 2
+    out = []
+    for _ in range(n):
+        assert w[k] == 'S'
+        full, m = w[k + 1] == '1', int(w[k + 2])
+        vals = [L.bits(float(x)) for x in w[k + 3:k + 3 + m]]
+        k += 3 + m
+        out.append((full, vals))
+    return out
+
+
+def model_history(requests):
+    """requests: [(path, [call dicts])] on one driver; returns per request ('exc', cls) or list of parsed replies"""
+    lines = []
+    for path, calls in requests:
+        od = '1' if str(path).endswith('OUTPUT_DATA') else '0'
+        lines.append('open %s %s -' % (L.hexs(str(path)), od))
+        for c in calls:
+            lines.append('index %d' % c['start'])
+            lines.append('hist %d %s' % (1 if c['short'] else 0, ' '.join(enc_item(it) for it in c['selection'])))
+    out = core.run_driver('drv_c05', lines)
+    k = 0
+    res = []
+    for path, calls in requests:
+        o = out[k]; k += 1
+        rep = []
+        for c in calls:
+            rep.append(parse_hist(out[k + 1]) if o.startswith('ok') else None)
+            k += 2
+        res.append(rep if o.startswith('ok') else ('exc', o))
+    return res
+
+
+def correspond(ctx, res, jobs, results):
+    """facet listing_history: the model of history() (Lean) against the real call: same selections, same series bit for bit,
+    same None / exception class; a call that did not return must be `diverges' in the model"""
+    from concurrent.futures import ThreadPoolExecutor
+    f = res.facet('listing_history')
+    reqs, owners = [], []
+    for job, r in zip(jobs, results):
+        if isinstance(r, L.Timeout):
+            info = r.info or {}
+            if info.get('selection'):
+                path, _ = L.variant_path(job['tmp'], job['rel'], job['family'], job['vspec'])
+                reqs.append((str(path), [dict(selection=info['selection'], short=info.get('short', True), start=info.get('start', 0), out='hang')]))
+                owners.append((job, None))
+            continue
+        if r.get('calls'):
+            reqs.append((r['path'], r['calls']))
+            owners.append((job, r))
+    if not reqs:
+        return
+    nth = min(6, len(reqs))
+    buckets = [reqs[i::nth] for i in range(nth)]
+    idxs = [list(range(len(reqs)))[i::nth] for i in range(nth)]
+    outs = [None] * len(reqs)
+    with ThreadPoolExecutor(max_workers=nth) as ex:
+        for ids, fut in zip(idxs, [ex.submit(model_history, b) for b in buckets]):
+            for i, o in zip(ids, fut.result()):
+                outs[i] = o
+    for (job, r), (path, calls), o in zip(owners, reqs, outs):
+        case0 = dict(file=job['rel'], variant=job['vspec'])
+        if isinstance(o, tuple):
+            f['cases'] += 1; f['disagreements'] += 1
+            res.disagreements.append(dict(facet='listing_history', case=case0, model='open: ' + o[1][:80], impl='opens'))
+            continue
+        ft = r['fulltimes'] if r else None
+        at = r['alltimes'] if r else None
+        for c, m in zip(calls, o):
+            f['cases'] += 1
+            case = dict(case0, selection=c['selection'], short=c['short'], start=c['start'])
+            real = c['out']
+            if real == 'hang':
+                res.count('model:hangs-compared')
+                if m != 'exc:diverges':
+                    f['disagreements'] += 1
+                    res.disagreements.append(dict(facet='listing_history', case=case, model=str(m)[:100], impl='does not return'))
+                continue
+            d = None
+            if isinstance(real, str) or isinstance(m, str):
+                if real != m: d = (str(m)[:80], str(real)[:80])
+            elif real is None or m is None:
+                if not (real is None and m is None): d = ('None' if m is None else 'series', 'None' if real is None else 'series')
+            elif len(real) != len(m):
+                d = ('%d series' % len(m), '%d series' % len(real))
+            else:
+                for k, ((full, mv), (rt, rv)) in enumerate(zip(m, real)):
+                    res.count('model:series-compared')
+                    if mv != rv:
+                        j = next((j for j, (a, b) in enumerate(zip(mv, rv)) if a != b), min(len(mv), len(rv)))
+                        d = ('item %d: %d values, position %d differs' % (k, len(mv), j), 'item %d: %d values' % (k, len(rv)))
+                        break
+                    if rt != (ft if full else at):
+                        d = ('item %d: paired with %s times' % (k, 'full' if full else 'all'), 'item %d: %d times' % (k, len(rt)))
+                        break
+            if d:
+                f['disagreements'] += 1
+                res.disagreements.append(dict(facet='listing_history', case=case, model=d[0], impl=d[1]))
+
+
 def run(ctx):
     res = Result()
     res.rule = ('cases = history() calls: per shipped listing every non-empty subset of its tables in a random order (one item per table: '
@@ -323,6 +458,8 @@ def run(ctx):
     res.facet('oracle_history')['cases'] = n
     # distinct: measured as the number of history calls compared (selections are random: collisions are negligible but counted conservatively)
     res.distinct = set(range(res.stats.get('series-compared', 0)))
+    if ctx.model_ok:
+        correspond(ctx, res, jobs, results)
     return res
 
 
